@@ -157,6 +157,19 @@ def check_font_pictures(chk, font, cfg, srcs, glyph_specs, tol, ctx, replay, gri
             d = 2.5 + max(tol, 0) * s + 1.0
         before = oracle_cmp.ROUNDING_DOMINATED[0]
         probs = oracle_cmp.compare(exp, got, d, grid=grid, ctx=f"{ctx} glyph {gi}: ")
+        # COLRv1 rendering semantics include the clip box: what it cuts off a layer is not painted
+        if "COLR" in font and font["COLR"].version == 1 and font["COLR"].table.ClipList:
+            cb = font["COLR"].table.ClipList.clips.get(gname)
+            if cb is not None:
+                dmax = max(d) if isinstance(d, (list, tuple)) else d
+                for li, L in enumerate(exp):
+                    b = L.shape.bounds
+                    if b is None:
+                        continue
+                    cut = max(cb.xMin - b[0], cb.yMin - b[1], b[2] - cb.xMax, b[3] - cb.yMax)
+                    if cut > dmax + 1.0:
+                        probs.append(f"{ctx} glyph {gi}: layer {li} spans {tuple(round(v, 1) for v in b)} but the clip box "
+                                     f"({cb.xMin}, {cb.yMin}, {cb.xMax}, {cb.yMax}) cuts {cut:.1f} units off it")
         if oracle_cmp.ROUNDING_DOMINATED[0] > before:
             chk.notes["layers_with_points_accepted_by_int16_rounding_bound"] = (
                 chk.notes.get("layers_with_points_accepted_by_int16_rounding_bound", 0) + oracle_cmp.ROUNDING_DOMINATED[0] - before)
